@@ -284,7 +284,7 @@ where
     /// not.   
     async fn get_call_or_create(&self, key: &str) -> (Arc<Call<T, E>>, bool) {
         #[cfg(feature = "verif")]
-        verif_hooks::point("sf.map.lock");
+        verif_hooks::point_until("sf.map.lock", || !self.call_map.is_locked());
         // A synchronous lock: the sections below never yield, and an async mutex would hand the lock to a
         // queued caller that may not be polled for a long time (e.g. a buffered stream behind a full channel),
         // which then blocks every other caller of the group, whatever its key.
@@ -305,7 +305,7 @@ where
     /// then an error is returned.
     async fn remove_call(&self, key: &str) -> SingleflightResult<(), E> {
         #[cfg(feature = "verif")]
-        verif_hooks::point("sf.map.lock2");
+        verif_hooks::point_until("sf.map.lock2", || !self.call_map.is_locked());
         let mut m = self.call_map.lock();
         #[cfg(feature = "verif")]
         verif_hooks::point("sf.map.locked2");
